@@ -16,9 +16,7 @@ Print Assumptions params_ok_now.
 (* check_exact, direction "reported present => valid", at EVERY moment of EVERY history (not only
    after a completed check): a set bit is a piece whose every file window exists on the original
    disk and whose bytes hash to the torrent's value.
-   The converse direction (valid => reported present once a check has completed) is NOT proved in
-   Coq: it is compared against the implementation and against OpenSSL on every generated case by
-   the correspondence run (oracle class "not-exact"). *)
+   No assumption on the client.  The converse (and hence the iff) is check_exact below. *)
 Theorem check_exact_sound : forall H pl expected fs0 ops bl i,
   s_bits (run H pl expected ops (init fs0)) = Some bl ->
   nth i bl false = true ->
